@@ -18,6 +18,7 @@ import RoModel.Drivers.Chan
 import RoModel.Drivers.Multi
 import RoModel.Drivers.Create
 import RoModel.Drivers.More
+import RoModel.Drivers.Fault
 namespace Ro.Driver
 
 def handlers : List (String × (Case → String)) := [
@@ -40,7 +41,8 @@ def handlers : List (String × (Case → String)) := [
   ("multipark", Drivers.Multi.runMicro),
   ("create", Drivers.Create.run),
   ("tap", Drivers.More.runTap),
-  ("pipe", Drivers.More.runPipe)
+  ("pipe", Drivers.More.runPipe),
+  ("fault", Drivers.Fault.run)
 ]
 
 def runCase (c : Case) : String :=
